@@ -12,6 +12,8 @@ CHECKS = {
             "note": NOTE_ORD, "technique": "Coq proof (induction over draw stream and rows; mod arithmetic) + vm_compute correspondence"},
     "C10": {"text": "Coq theorems over Q for every parent tensor, F configuration, jitter and draw stream: V = X0 + ((0 + d1) + d2)... with d_k = Feff_k*(X_{2k-1}-X_{2k}), one F per mutant and pair inside [lo,hi], jitter factor within gamma/2 of 1 and centred, exact when F scalar and gamma None (no draws consumed); + bit-exact correspondence of DEM.de_mutation / DEM.do including the order of additions",
             "note": NOTE_Q, "technique": "Coq proof (structural induction over pairs, nra) + vm_compute correspondence"},
+    "C09": {"text": "Coq theorems for every population size, parent count, rank assignment and choice-draw stream: if a selection returns P then rows have the documented layout, randomly drawn parents are pairwise distinct, differ from the target and the fixed best, indices are valid; ranked = permutation of a 'rand' row with best-ranked base and (better, worse) pairs; + exact correspondence of DES._do with recorded and collision-scripted draws",
+            "note": NOTE_ORD + " Termination of the rejection loops is not claimed.", "technique": "Coq proof (loop invariant of the redraw loop, insertion-sort permutation/sortedness) + vm_compute correspondence"},
 }
 
 _PENDING = "check not built yet in this session (work in progress, see DESIGN.md section 7)"
